@@ -893,6 +893,12 @@ func (m *repoManager) newUUID(assign *dvid.UUID) (dvid.UUID, dvid.VersionID, err
 		uuid = *assign
 	}
 	m.idMutex.Lock()
+	if assign != nil {
+		if _, found := m.uuidToVersion[uuid]; found {
+			m.idMutex.Unlock()
+			return dvid.NilUUID, 0, fmt.Errorf("UUID %s is already in use", uuid)
+		}
+	}
 	curid := m.versionID
 	m.versionToUUID[curid] = uuid
 	m.uuidToVersion[uuid] = curid
